@@ -4,7 +4,25 @@ import json, os, re
 V = os.path.dirname(os.path.dirname(os.path.abspath(__file__)))
 p = os.path.join(V, "DESIGN.md")
 s = open(p).read()
-res = json.load(open(os.path.join(V, "seeded", "RESULTS.json")))
+mres = json.load(open(os.path.join(V, "matrix", "RESULTS.json")))
+res = {}
+for rel, v in mres.items():
+    if v["kind"] != "seed":
+        continue
+    m = re.match(r"seeded/(C\d\d)/(?:(r\d)/)?patch(\d*)\.diff", rel)
+    if not m:
+        continue
+    rnd, k = m.group(2), m.group(3) or "1"
+    sid = "%s/%s" % (m.group(1), k if not rnd else "%s-%s" % (rnd, k))
+    meta = {}
+    mp = os.path.join(V, os.path.dirname(rel), "meta%s.json" % m.group(3))
+    if os.path.exists(mp):
+        try:
+            meta = json.load(open(mp))
+        except Exception:
+            pass
+    res[sid] = {"files": meta.get("files", []), "summary": v.get("summary") or meta.get("summary", ""), "fired": v["fired"], "caught": bool(v["fired"]),
+                "caught_by_own_check": v["target"] in v["fired"]}
 rows = ["| seed | files changed | what the change does | reported by (first keys) |", "|---|---|---|---|"]
 for k in sorted(res):
     v = res[k]
